@@ -26,7 +26,7 @@ theorem run_append (md : Mode) (s : St) (a b : List Ev) :
 theorem deliver_halted_of (md : Mode) (s : St) (g : Sig) (h : (deliver md s g).1.halted = none) :
     s.halted = none := by
   unfold deliver at h
-  cases md <;> cases g <;> simp [St.disp, St.setDisp] at h <;> split at h <;> simp_all <;>
+  obtain ⟨sem, w⟩ := md; cases sem <;> cases w <;> cases g <;> simp [St.disp, St.setDisp] at h <;> split at h <;> simp_all <;>
     (split at h <;> simp_all)
 
 theorem exec_halted_of (md : Mode) (s : St) (e : Ev) (h : (exec md s e).1.halted = none) : s.halted = none := by
@@ -171,19 +171,71 @@ theorem setDisp_same (s : St) (g : Sig) (hd : s.disp g = true) : s.setDisp g tru
 theorem deliver_ok (md : Mode) (s : St) (g : Sig) (hd : s.disp g = true) (hs : s.stop ≤ 1) :
     deliver md s g =
       ({ s with stop := s.stop + 1 },
-       Obs.brk s.msgSize (s.msgSize == 0 || s.msgPtr == .live) ::
+       writeObs md s ::
          ((if s.handler ≠ 0 then [Obs.cb s.handler s.data] else []) ++ [.rearm g])) := by
   cases s with
   | mk stop handler data msgPtr msgSize dispInt dispTerm intr alive halted =>
     have h1 : ¬ (1 < stop) := by simp at hs; omega
-    cases md <;> cases g <;> simp_all [deliver, St.setDisp, St.disp] <;>
+    obtain ⟨sem, w⟩ := md; cases sem <;> cases w <;> cases g <;> simp_all [deliver, writeObs, St.setDisp, St.disp] <;>
       (rw [if_neg (Nat.not_lt.mpr hs)]; simp; split <;> simp_all)
 
 /-- the handler is installed and `stop_ > 1`: `_exit(1)` after writing the break text -/
 theorem deliver_exit (md : Mode) (s : St) (g : Sig) (hd : s.disp g = true) (hs : 1 < s.stop) :
     (deliver md s g).1.halted = some .exit1 ∧
-    (deliver md s g).2 = [Obs.brk s.msgSize (s.msgSize == 0 || s.msgPtr == .live), .exit1] := by
-  cases md <;> cases g <;> simp_all [deliver, St.setDisp, St.disp]
+    (deliver md s g).2 = [writeObs md s, .exit1] := by
+  obtain ⟨sem, w⟩ := md; cases sem <;> cases w <;> cases g <;> simp_all [deliver, writeObs, St.setDisp, St.disp]
+
+@[simp] theorem writeObs_ne_cb (md : Mode) (s : St) (h d : Nat) : writeObs md s ≠ Obs.cb h d := by
+  unfold writeObs; split <;> simp
+@[simp] theorem cb_ne_writeObs (md : Mode) (s : St) (h d : Nat) : Obs.cb h d ≠ writeObs md s :=
+  fun e => writeObs_ne_cb md s h d e.symm
+@[simp] theorem writeObs_ne_exit (md : Mode) (s : St) : writeObs md s ≠ Obs.exit1 := by
+  unfold writeObs; split <;> simp
+@[simp] theorem exit_ne_writeObs (md : Mode) (s : St) : Obs.exit1 ≠ writeObs md s :=
+  fun e => writeObs_ne_exit md s e.symm
+@[simp] theorem writeObs_isWrite (md : Mode) (s : St) : (writeObs md s).isWrite = true := by
+  unfold writeObs; split <;> rfl
+theorem brk_eq_writeObs (md : Mode) (s : St) (n : Nat) (ok : Bool) (h : Obs.brk n ok = writeObs md s) :
+    n = s.msgSize ∧ ok = (s.msgSize == 0 || s.msgPtr == .live) := by
+  unfold writeObs at h; split at h <;> simp_all
+
+/-- the result of `write(1, …)` influences nothing but the break text itself -/
+theorem deliver_write_irrelevant (sem : SigSem) (w1 w2 : Bool) (s : St) (g : Sig) :
+    (deliver ⟨sem, w1⟩ s g).1 = (deliver ⟨sem, w2⟩ s g).1 ∧
+    nonWrite (deliver ⟨sem, w1⟩ s g).2 = nonWrite (deliver ⟨sem, w2⟩ s g).2 := by
+  cases hd : s.disp g with
+  | false => simp [deliver_killed, hd]
+  | true =>
+    by_cases hs : s.stop ≤ 1
+    · rw [deliver_ok _ s g hd hs, deliver_ok _ s g hd hs]
+      refine ⟨rfl, ?_⟩
+      cases w1 <;> cases w2 <;> simp [nonWrite, writeObs, Obs.isWrite]
+    · constructor
+      · cases sem <;> cases w1 <;> cases w2 <;> cases g <;> simp_all [deliver, writeObs, St.setDisp, St.disp]
+      · rw [(deliver_exit _ s g hd (by omega)).2, (deliver_exit _ s g hd (by omega)).2]
+        cases w1 <;> cases w2 <;> simp [nonWrite, writeObs, Obs.isWrite]
+
+theorem nonWrite_append (a b : List Obs) : nonWrite (a ++ b) = nonWrite a ++ nonWrite b := by
+  simp [nonWrite]
+
+theorem run_write_irrelevant (sem : SigSem) (w1 w2 : Bool) (evs : List Ev) (s : St) :
+    (run ⟨sem, w1⟩ s evs).1 = (run ⟨sem, w2⟩ s evs).1 ∧
+    nonWrite (run ⟨sem, w1⟩ s evs).2 = nonWrite (run ⟨sem, w2⟩ s evs).2 := by
+  induction evs generalizing s with
+  | nil => simp [run]
+  | cons e r ih =>
+    rw [run_cons, run_cons]
+    have he : (exec ⟨sem, w1⟩ s e).1 = (exec ⟨sem, w2⟩ s e).1 ∧
+        nonWrite (exec ⟨sem, w1⟩ s e).2 = nonWrite (exec ⟨sem, w2⟩ s e).2 := by
+      cases hh : s.halted with
+      | some x => simp [exec, hh]
+      | none =>
+        cases e with
+        | step m => simp [exec_step, hh]
+        | sig g => rw [exec_sig _ s g hh, exec_sig _ s g hh]; exact deliver_write_irrelevant sem w1 w2 s g
+    rw [he.1]
+    have := ih (exec ⟨sem, w2⟩ s e).1
+    exact ⟨this.1, by rw [nonWrite_append, nonWrite_append, he.2, this.2]⟩
 
 theorem inv_stop_irrel (pc : PC) (s : St) (hi : Inv pc s) (hs : s.stop ≤ 1) : Inv pc { s with stop := s.stop + 1 } := by
   obtain ⟨_, hr⟩ := hi
@@ -272,7 +324,7 @@ theorem body_run (md : Mode) (evs : List Ev) (s : St) (hb : ∀ e ∈ evs, Body 
         simp [hx, sigCount]
         refine ⟨by omega, ?_⟩
         have : (deliver md s g).1.stop = s.stop := by
-          cases md <;> cases g <;> simp_all [deliver, St.setDisp, St.disp]
+          obtain ⟨sem, w⟩ := md; cases sem <;> cases w <;> cases g <;> simp_all [deliver, writeObs, St.setDisp, St.disp]
         omega
 
 /-- no program step ever uninstalls the handlers and every completed delivery re-arms: from a state with both
@@ -491,7 +543,7 @@ theorem stop_le_two (md : Mode) (evs : List Ev) (s : St) (h2 : s.stop ≤ 2) : (
           by_cases hs1 : s.stop ≤ 1
           · rw [deliver_ok md s g hd hs1]; simp; omega
           · have : (deliver md s g).1.stop = s.stop := by
-              cases md <;> cases g <;> simp_all [deliver, St.setDisp, St.disp]
+              obtain ⟨sem, w⟩ := md; cases sem <;> cases w <;> cases g <;> simp_all [deliver, writeObs, St.setDisp, St.disp]
             omega
 
 end MpVerif.C15
